@@ -24,6 +24,7 @@ dicts are printed with sorted keys.
 -/
 import OsmoVerif.Model.Codec
 import OsmoVerif.Gen.TrxdProto
+import OsmoVerif.Spec.TrxdLayout
 import OsmoVerif.Driver.Util
 namespace OsmoVerif.Driver.Codec
 open OsmoVerif.Codec OsmoVerif.Driver
@@ -242,6 +243,22 @@ def handle : List String → Option String
     if r ≠ [] then none
     let v ← asDict v
     pure (outEnc (toBytes d v))
+  -- documented layout (Spec.TrxdLayout), evaluated on message-codec field values
+  | ["c17.layout.tx", ver, tn, fn, pwr, bits] => do
+    let v ← nats? [ver, tn, fn, pwr]
+    let b ← unhex? bits
+    match v with
+    | [ver, tn, fn, pwr] => pure (hex (OsmoVerif.Spec.Trxd.layoutTx ver tn fn pwr b))
+    | _ => none
+  | ["c17.layout.rx0", tn, fn, rssi, toa, bits, pad] => do
+    let tn ← parseNat? tn; let fn ← parseNat? fn; let rssi ← parseInt? rssi; let toa ← parseInt? toa
+    let b ← unhex? bits; let p ← unhex? pad
+    pure (hex (OsmoVerif.Spec.Trxd.layoutRxV0 tn fn rssi toa b p))
+  | ["c17.layout.rx1", tn, fn, rssi, toa, nope, mod, tsc, ci, bits] => do
+    let tn ← parseNat? tn; let fn ← parseNat? fn; let rssi ← parseInt? rssi; let toa ← parseInt? toa
+    let nope ← parseNat? nope; let mod ← parseNat? mod; let tsc ← parseNat? tsc; let ci ← parseInt? ci
+    let b ← unhex? bits
+    pure (hex (OsmoVerif.Spec.Trxd.layoutRxV1 tn fn rssi toa nope mod tsc ci b))
   | _ => none
 
 end OsmoVerif.Driver.Codec
